@@ -145,33 +145,35 @@ theorem parse_ok_verified (H : Hash) (d : Bytes) (r : Nat × Nat) (hp : parse H 
       · cases hp
       · split at hp
         · cases hp
-        · simp only at hp
-          split at hp
+        · split at hp
           · cases hp
-          · split at hp
+          · simp only at hp
+            split at hp
             · cases hp
-            · rename_i nc r2 hc
-              split at hp
+            · split at hp
               · cases hp
-              · split at hp
+              · rename_i nc r2 hc
+                split at hp
                 · cases hp
-                · rename_i ne r3 he
-                  obtain ⟨c1, c2, c3⟩ := parsePages_ok _ _ _ _ _ _ _ hc
-                  obtain ⟨e1, e2, e3⟩ := parsePages_ok _ _ _ _ _ _ _ he
-                  simp only [readIndex_length] at c1 c2 c3 e1 e2 e3
-                  refine ⟨by simpa using hok, ?_, ?_⟩
-                  · intro i hi
-                    have := c3 i hi
-                    rw [readIndex_get] at this
-                    simp only [slice_drop] at this
-                    unfold ckPage ckSum ckPagesOff ckIndexOff
-                    exact slice_cong H d _ _ _ _ _ (by omega) (by omega) this
-                  · intro i hi
-                    have := e3 i hi
-                    rw [readIndex_get, c2] at this
-                    simp only [slice_drop] at this
-                    unfold ekPage ekSum ekPagesOff ekIndexOff ckPagesOff ckIndexOff
-                    exact slice_cong H d _ _ _ _ _ (by omega) (by omega) this
+                · split at hp
+                  · cases hp
+                  · rename_i ne r3 he
+                    obtain ⟨c1, c2, c3⟩ := parsePages_ok _ _ _ _ _ _ _ hc
+                    obtain ⟨e1, e2, e3⟩ := parsePages_ok _ _ _ _ _ _ _ he
+                    simp only [readIndex_length] at c1 c2 c3 e1 e2 e3
+                    refine ⟨by simpa using hok, ?_, ?_⟩
+                    · intro i hi
+                      have := c3 i hi
+                      rw [readIndex_get] at this
+                      simp only [slice_drop] at this
+                      unfold ckPage ckSum ckPagesOff ckIndexOff
+                      exact slice_cong H d _ _ _ _ _ (by omega) (by omega) this
+                    · intro i hi
+                      have := e3 i hi
+                      rw [readIndex_get, c2] at this
+                      simp only [slice_drop] at this
+                      unfold ekPage ekSum ekPagesOff ekIndexOff ckPagesOff ckIndexOff
+                      exact slice_cong H d _ _ _ _ _ (by omega) (by omega) this
 end Enc
 
 namespace Aidx
@@ -384,6 +386,164 @@ theorem hexLower_inj : ∀ (x y : Bytes), hexLower x = hexLower y → x = y := b
       simp only [Fin.mk.injEq] at e1 e2
       have : a = b := by apply BitVec.eq_of_toNat_eq; omega
       rw [this, ih bs h3]
+
+/-! the positive direction: a well-formed LAST line is always found, whatever the bytes before it contain -/
+
+/-- converse of `rfind_spec`. -/
+theorem rfind_eq (raw : Bytes) (p : Nat) (hp : slice raw p 10 = pfx) :
+    ∀ b, p < b → (∀ q, p < q → q < b → slice raw q 10 ≠ pfx) → rfind raw b = some p := by
+  intro b
+  induction b with
+  | zero => intro h; omega
+  | succ k ih =>
+    intro hlt hno
+    unfold rfind
+    by_cases hk : p = k
+    · subst hk; rw [if_pos hp]
+    · have : slice raw k 10 ≠ pfx := hno k (by omega) (by omega)
+      rw [if_neg this]
+      exact ih (by omega) (fun q h1 h2 => hno q h1 (by omega))
+
+/-- an occurrence of the prefix at `j` puts `h` (0x68) at `j + 1`. -/
+theorem occ_second (t : Bytes) (j : Nat) (h : slice t j 10 = pfx) : (0x68 : Byte) ∈ t.drop (j + 1) := by
+  unfold slice at h
+  rw [← List.tail_drop]
+  match hd : t.drop j, h with
+  | [], h => simp [pfx] at h
+  | [x], h => simp [pfx] at h
+  | x :: y :: rest, h =>
+    simp only [pfx, List.take_succ_cons, List.cons.injEq] at h
+    simp [h.2.1]
+
+theorem findNl_append (l r : Bytes) (h : ∀ x ∈ l, x ≠ 0x0a) :
+    findNl (l ++ r) = (findNl r).map (· + l.length) := by
+  induction l with
+  | nil => simp
+  | cons a as ih =>
+    have ha : a ≠ 0x0a := h a (by simp)
+    have := ih (fun x hx => h x (by simp [hx]))
+    simp only [List.cons_append, findNl, if_neg ha, this, Option.map_map, List.length_cons]
+    cases findNl r <;> simp [Nat.add_assoc]
+
+theorem byteAt_append_right (a t : Bytes) (i : Nat) : byteAt (a ++ t) (a.length + i) = byteAt t i := by
+  unfold byteAt
+  simp [List.getD_eq_getElem?_getD, List.getElem?_append_right]
+
+theorem hex_ne (x : Byte) (h : isHexDigit x = true) : x ≠ 0x68 ∧ x ≠ 0x0a ∧ x ≠ 0x0d := by
+  refine ⟨?_, ?_, ?_⟩ <;> (intro e; subst e; revert h; decide)
+
+/-- the tail `pfx ++ c ++ eol` has no second occurrence of the prefix. -/
+theorem no_later (c eol : Bytes) (hx : ∀ x ∈ c, isHexDigit x = true) (he : ∀ x ∈ eol, x = 0x0a ∨ x = 0x0d)
+    (j : Nat) (hj : 0 < j) : slice (pfx ++ (c ++ eol)) j 10 ≠ pfx := by
+  intro h
+  have h1 := occ_second _ _ h
+  have h2 : (0x68 : Byte) ∈ (pfx ++ (c ++ eol)).drop 2 := by
+    have : j + 1 = 2 + (j - 1) := by omega
+    rw [this, ← List.drop_drop] at h1
+    exact List.mem_of_mem_drop h1
+  simp only [pfx, List.cons_append, List.drop_succ_cons, List.drop_zero, List.mem_cons, List.mem_append, List.nil_append] at h2
+  rcases h2 with h2 | h2 | h2 | h2 | h2 | h2 | h2 | h2 | h2 | h2
+  all_goals first
+    | (revert h2; decide)
+    | exact (hex_ne _ (hx _ h2)).1 rfl
+    | (rcases he _ h2 with e | e <;> revert e <;> decide)
+
+
+theorem slice_append_right (a t : Bytes) (i n : Nat) : slice (a ++ t) (a.length + i) n = slice t i n := by
+  unfold slice; simp
+
+theorem hexEnd_tail (a c eol : Bytes) (hl : c.length = 64) (hx : ∀ x ∈ c, isHexDigit x = true)
+    (heol : eol = [] ∨ eol = [0x0a] ∨ eol = [0x0d, 0x0a]) :
+    hexEnd (a ++ (pfx ++ (c ++ eol))) a.length = a.length + 74 := by
+  have hnl : ∀ x ∈ pfx ++ c, x ≠ 0x0a := by
+    intro x hm
+    rcases List.mem_append.mp hm with h | h
+    · revert h; unfold pfx; intro h e; subst e; revert h; decide
+    · exact (hex_ne _ (hx _ h)).2.1
+  have hlen : (pfx ++ c).length = 74 := by simp [pfx, hl]
+  have hfind : findNl ((a ++ (pfx ++ (c ++ eol))).drop a.length) = (findNl eol).map (· + 74) := by
+    rw [List.drop_left, ← List.append_assoc, findNl_append _ _ hnl, hlen]
+  -- the last digit is not `\r`
+  have hlast : byteAt (a ++ (pfx ++ (c ++ eol))) (a.length + 73) ≠ 0x0d := by
+    rw [byteAt_append_right]
+    have : (73 : Nat) = pfx.length + 63 := by simp [pfx]
+    rw [this, byteAt_append_right]
+    unfold byteAt
+    have h63 : 63 < c.length := by omega
+    rw [List.getD_eq_getElem?_getD, List.getElem?_append_left h63, List.getElem?_eq_getElem h63]
+    simp only [Option.getD_some]
+    have := (hex_ne _ (hx _ (List.getElem_mem h63))).2.2
+    intro e; apply this; apply BitVec.eq_of_toNat_eq; simpa using e
+  have hle : lineEnd (a ++ (pfx ++ (c ++ eol))) a.length = a.length + 74 + (eol.length - 1) := by
+    unfold lineEnd
+    rw [hfind]
+    rcases heol with e | e | e <;> subst e
+    · simp [findNl, pfx, hl]
+    · simp [findNl]
+    · have : findNl ([0x0d, 0x0a] : Bytes) = some 1 := by decide
+      rw [this]; simp
+  unfold hexEnd
+  rw [hle]
+  rcases heol with e | e | e <;> subst e
+  · simp only [List.length_nil, Nat.zero_sub, Nat.add_zero]
+    have : a.length + 74 - 1 = a.length + 73 := by omega
+    rw [this]
+    split
+    · rename_i h; exact absurd h.2 hlast
+    · rfl
+  · simp only [List.length_singleton, Nat.sub_self, Nat.add_zero]
+    have : a.length + 74 - 1 = a.length + 73 := by omega
+    rw [this]
+    split
+    · rename_i h; exact absurd h.2 hlast
+    · rfl
+  · have hcr : byteAt (a ++ (pfx ++ (c ++ [0x0d, 0x0a]))) (a.length + 74) = 0x0d := by
+      rw [byteAt_append_right]
+      have : (74 : Nat) = pfx.length + 64 := by simp [pfx]
+      rw [this, byteAt_append_right]
+      have : (64 : Nat) = c.length + 0 := by omega
+      rw [this, byteAt_append_right]
+      decide
+    have : a.length + 74 + (([0x0d, 0x0a] : Bytes).length - 1) = a.length + 75 := by simp
+    rw [this]
+    have : a.length + 75 - 1 = a.length + 74 := by omega
+    rw [this]
+    split
+    · rfl
+    · rename_i h; exact absurd ⟨by omega, hcr⟩ h
+
+/-- an intact, well-formed last line governs WHATEVER precedes it (`a` may contain the text
+`Checksum: ` any number of times, as well-formed lines or not). -/
+theorem extract_wellformed_last (a c eol : Bytes) (hl : c.length = 64) (hx : c.all isHexDigit = true)
+    (heol : eol = [] ∨ eol = [0x0a] ∨ eol = [0x0d, 0x0a]) :
+    extract (a ++ pfx ++ c ++ eol) = (a, some c) := by
+  have hx' : ∀ x ∈ c, isHexDigit x = true := by simpa [List.all_eq_true] using hx
+  have he : ∀ x ∈ eol, x = 0x0a ∨ x = 0x0d := by
+    rcases heol with e | e | e <;> subst e <;> simp
+  have hraw : a ++ pfx ++ c ++ eol = a ++ (pfx ++ (c ++ eol)) := by simp [List.append_assoc]
+  rw [hraw]
+  have hp : slice (a ++ (pfx ++ (c ++ eol))) a.length 10 = pfx := by
+    have := slice_append_right a (pfx ++ (c ++ eol)) 0 10
+    rw [Nat.add_zero] at this
+    rw [this]; unfold slice; simp [pfx]
+  have hrf : rfind (a ++ (pfx ++ (c ++ eol))) ((a ++ (pfx ++ (c ++ eol))).length + 1 - 10) = some a.length := by
+    apply rfind_eq _ _ hp
+    · simp [pfx, hl]; omega
+    · intro q h1 _
+      have : q = a.length + (q - a.length) := by omega
+      rw [this, slice_append_right]
+      exact no_later c eol hx' he _ (by omega)
+  unfold extract
+  rw [hrf]
+  simp only [hexEnd_tail a c eol hl hx' heol]
+  have hc : slice (a ++ (pfx ++ (c ++ eol))) (a.length + 10) (a.length + 74 - (a.length + 10)) = c := by
+    have : a.length + 74 - (a.length + 10) = 64 := by omega
+    rw [this, slice_append_right]
+    have : (10 : Nat) = pfx.length + 0 := by simp [pfx]
+    rw [this, slice_append_right]
+    unfold slice
+    rw [List.drop_zero, ← hl, List.take_left]
+  rw [hc, if_pos ⟨by omega, hl, hx⟩, List.take_left]
 end V1
 
 namespace Cache
